@@ -43,7 +43,28 @@ class VerifScopedChild(VerifScopedBase):
     message = 'scoped'
 
 
+# history of the class registry: an error with code 2002 is deserialised BEFORE any class claims that code ...
+_early = exceptions.JsonRpcError.from_json({'code': 2002, 'message': 'before the class existed'})
+assert type(_early) is exceptions.JsonRpcError
+
+
+class VerifLateError(exceptions.JsonRpcError):
+    """... and only then a class for 2002 comes into being: from now on that code deserialises to it"""
+    code = 2002
+    message = 'late'
+
+
+# ... the code is deserialised again, and then ANOTHER class is registered for the same code: the latest registration wins
+_second = exceptions.JsonRpcError.from_json({'code': 2002, 'message': 'between the two registrations'})
+
+
+class VerifLatestError(exceptions.JsonRpcError):
+    code = 2002
+    message = 'latest'
+
+
 CLASSES = {c.__name__: c for c in (
+    VerifLateError, VerifLatestError,
     VerifScopedBase, VerifScopedChild,
     VerifZeroError,
     exceptions.JsonRpcError, VerifBaseError, VerifCustomError, exceptions.ParseError,
